@@ -170,26 +170,27 @@ Definition do_alias (s : rstate) (m : option (list (uid * uid))) : rstate :=
          ord_defined := ord_defined s; bad := bad s |}
   end.
 
+Definition on_true (on : expr) (lr rr : row) : bool :=
+  value_eqb (eval [] (O, (lr ++ rr)%list) on) (VBool true).
+Definition on_err (on : expr) (lr rr : row) : bool := is_err (eval [] (O, (lr ++ rr)%list) on).
+
+Definition join_branch (how : jhow) (lr : row) (ms : list row) : list row :=
+  match ms, how with
+  | [], (JLeft | JFull) => [lr]                 (* padded: absent uids read as null *)
+  | ms', _ => map (fun rr => (lr ++ rr)%list) ms'
+  end.
+
 Definition do_join (l r : rstate) (on : expr) (how : jhow) : rstate :=
-  let pairs := map (fun lr =>
-                 (lr, filter (fun rr => value_eqb (eval [] (O, (lr ++ rr)%list) on) (VBool true)) (rows r)))
-               (rows l) in
-  let matched := flat_map (fun p =>
-                   match snd p, how with
-                   | [], (JLeft | JFull) => [fst p]            (* padded: absent uids read as null *)
-                   | ms, _ => map (fun rr => (fst p ++ rr)%list) ms
-                   end) pairs in
+  let matched := flat_map (fun lr => join_branch how lr (filter (on_true on lr) (rows r))) (rows l) in
   let unmatched_r :=
       match how with
-      | JFull => filter (fun rr =>
-                   negb (existsb (fun lr => value_eqb (eval [] (O, (lr ++ rr)%list) on) (VBool true)) (rows l)))
-                   (rows r)
+      | JFull => filter (fun rr => negb (existsb (fun lr => on_true on lr rr) (rows l))) (rows r)
       | _ => []
       end in
   {| rows := matched ++ unmatched_r;
      sel := sel l ++ sel r; group := []; ord_defined := false;
      bad := bad l || bad r
-            || existsb (fun lr => existsb (fun rr => is_err (eval [] (O, (lr ++ rr)%list) on)) (rows r)) (rows l) |}.
+            || existsb (fun lr => existsb (on_err on lr) (rows r)) (rows l) |}.
 
 Fixpoint dedup_rows (seen : list (list value)) (vis : row -> list value) (rs : list row) : list row :=
   match rs with
